@@ -196,12 +196,48 @@ Qed.
 Print Assumptions C16_cache_key.
 
 (* the key is canonical: requests whose hint + challenge scopes are the same set
-   use the same key *)
+   use the same key ... *)
 Theorem C16_cache_key_canonical :
   forall l l', (forall x, In x l <-> In x l') ->
     join [c_space] (clean_scopes l) = join [c_space] (clean_scopes l').
 Proof. exact (fun l l' H => f_equal (join [c_space]) (clean_scopes_same l l' H)). Qed.
 Print Assumptions C16_cache_key_canonical.
+
+(* ... and ONLY then, provided no scope is empty or contains a space (the scopes of
+   a challenge satisfy this: they are the pieces of a split on spaces, and
+   CleanScopes preserves it): equal keys give equal canonical scope sets *)
+Theorem C16_cache_key_injective :
+  forall l l',
+    (forall s, In s l -> key_safe s) -> (forall s, In s l' -> key_safe s) ->
+    join [c_space] (clean_scopes l) = join [c_space] (clean_scopes l') ->
+    clean_scopes l = clean_scopes l'.
+Proof. exact key_determines_scopes. Qed.
+Print Assumptions C16_cache_key_injective.
+
+(* the side condition is needed: a scope HINT containing a space (caller input the
+   protocol cannot express; outside the property's quantifier, see assumptions)
+   aliases the key of a two-element scope set *)
+Theorem C16_cache_key_space_refuted :
+  let l := [b "repository:a:pull repository:b:pull"] in
+  let l' := [b "repository:a:pull"; b "repository:b:pull"] in
+  join [c_space] (clean_scopes l) = join [c_space] (clean_scopes l') /\ clean_scopes l <> clean_scopes l'.
+Proof. exact key_alias_with_space. Qed.
+Print Assumptions C16_cache_key_space_refuted.
+
+(* Client.Do re-uses a token (a send that is not fresh) only if it is in the cache,
+   as it was when the call started, under the request's host, the scheme of the
+   header, and one of the request's own keys (hinted scopes, or CleanScopes of
+   hinted + challenge scopes).  With C16_cache_key (a hit is a token stored under
+   exactly that host, scheme and key) and C16_cache_key_injective this is the
+   clause "a cached token is reused only for the same host, scheme and canonical
+   scope set" for the shared cache; the single-context cache ignores the key by
+   design (C16_single_context_cache). *)
+Theorem C16_reuse_only_own_key :
+  forall parse clean cf c rq script,
+    let '(evs, c', r) := do_request clean parse cf c rq script in
+    Forall (cached_send_ok clean (cf_flavour cf) c rq) evs.
+Proof. exact do_request_cached_sends. Qed.
+Print Assumptions C16_reuse_only_own_key.
 
 (* the single-context cache is documented to ignore scopes (host + scheme only):
    it always hits for the same host and scheme, and never for another host *)
